@@ -8,7 +8,7 @@ def build(variant='plain0'):
             (os.path.join(vbuild.VERIF, 'checks/flat/judge.cc'), 'plain', ('-O2',), '')]
     jobs += [(s, 'plain', (), '') for s in vbuild.LIBMP_SRCS]
     objs = vbuild.compile_many(jobs)
-    return vbuild.link('flatsrv', objs, 'plain')
+    return vbuild.link('flatsrv', objs, 'plain', libs=('-lgmpxx', '-lgmp'))
 
 def esc(s):
     return s.replace('\\', '\\\\').replace('\n', '\\n').replace('\t', '\\t')
